@@ -643,3 +643,33 @@ def run_s11_s12(chk, repo):
     from rules.C04b import run_p13_p15, run_p16
     run_p13_p15(chk, repo)
     run_p16(chk, repo)
+    run_s13(chk, repo)
+
+
+def run_s13(chk, repo):
+    """update_name_of_tables renames the $TABLE files one record at a time: replace_records puts all new records at the place
+    of the first old one, so replacing several non-adjacent records in one call reorders the control stream"""
+    S13 = chk.rule('S13', 'update_name_of_tables: each renamed $TABLE record is replaced on its own (one old record, one new '
+                          'record per replace_records call)', floor=1)
+    um = repo.module('pharmpy.model.external.nonmem.update')
+    f = um.functions.get('update_name_of_tables')
+    ps = repo.module('pharmpy.model.external.nonmem.nmtran_parser')
+    rr = ps.classes.get('NMTranControlStream').methods.get('replace_records') if ps.classes.get('NMTranControlStream') else None
+    if f is None or rr is None:
+        raise AnalysisError('update_name_of_tables / NMTranControlStream.replace_records not found')
+    # does replace_records still gather the new records at one position? (a flag that is cleared after the first insertion)
+    gathers = any(isinstance(a, ast.Assign) and isinstance(a.value, ast.Constant) and a.value.value is False
+                  for a in ast.walk(rr.node))
+    calls = [c for c in calls_in(f.node) if isinstance(c.func, ast.Attribute) and c.func.attr == 'replace_records' and c.args]
+    if not calls:
+        raise AnalysisError('S13: replace_records is not called from update_name_of_tables')
+    for c in calls:
+        single = isinstance(c.args[0], (ast.List, ast.Tuple)) and len(c.args[0].elts) == 1
+        chk.instance(S13, f'update_name_of_tables: `{unparse(c)[:70]}` replaces one record: {single} '
+                          f'(replace_records gathers at the first position: {gathers})')
+        if gathers and not single:
+            chk.violation(S13, um.rel, f.name, unparse(c)[:90],
+                          'several $TABLE records are replaced in one call: they are all moved to the position of the first',
+                          line=c.lineno,
+                          witness='$TABLE FILE=sdtab1, $TABLE FILE=cotab, $COVARIANCE, $TABLE FILE=patab1 and a model renamed to '
+                                  'run7: the record order changes and a comment ends up in front of another record')
